@@ -483,7 +483,7 @@ class Snapshot:
     """Baseline of a set of roots with enough to put them back: identity of the root value, and for
     every container / exabgp instance reachable from it (depth 4) a shallow copy of its contents."""
 
-    def __init__(self, roots: dict):
+    def __init__(self, roots: dict, digests: bool = True):
         self.roots = roots
         self.values = {}
         self.nodes = {}   # root key -> list of (obj, kind, saved)
@@ -494,7 +494,8 @@ class Snapshot:
             nodes = []
             self._walk(v, _MAXD, set(), nodes)
             self.nodes[key] = nodes
-            self.digests[key] = _digest(v)
+            if digests:
+                self.digests[key] = _digest(v)
 
     def _walk(self, v, depth, seen, nodes):
         if depth <= 0 or id(v) in seen or inspect.isclass(v) or inspect.isroutine(v):
@@ -648,6 +649,8 @@ class Harness:
         missing = [k for k in ATTR_CACHE_KEYS if k not in self.snap.roots]
         if missing:
             hot -= set(missing)
+        # the Adj-RIB-In tables hang off RIB._cache: new_run_objects() empties them, checkpoints save them through rib_roots()
+        hot.discard('exabgp.rib:RIB._cache')
         self.hot = sorted(hot)
         self.canon_keys = [k for k in self.hot if k not in _NOT_CANON]
         self.calibration = {k: sorted(v) for k, v in sorted(per_letter.items())}
@@ -709,32 +712,27 @@ class Harness:
             return any(b == m for a, b in seq[:-1])
         return False
 
-    def evaluate(self, mode: str, seq, intervene=None, want_state: bool = False):
-        """Run seq from a reset state.  Returns (mismatches, info).
-        intervene = (k, keys, frm): just before step k (k == len(seq): before the final re-rendering) put the roots `keys`
-        back to their baseline (frm None) or to what they were right after step frm."""
+    def rib_roots(self) -> dict:
+        return {f'rib:{name}': (self.w['sessions'][name]['neighbor'].rib, 'incoming') for name in self.w['order']}
+
+    def expected_ribs(self, mode, before: dict, letter) -> dict:
+        """Dict model: the tables before the step + the effect the letter has when decoded alone."""
+        out = {name: [tuple(r) for r in rows] for name, rows in before.items()}
+        if letter[0] == OPEN_SESSION:
+            return out
+        al = self.alone_for(mode, letter)
+        tab = {(r[0], r[1]): r for r in out[letter[0]]}
+        for row in al['rows']:
+            tab[(row[0], row[1])] = row
+        for key in al['wd']:
+            tab.pop(key, None)
+        out[letter[0]] = sorted(tab.values())
+        return out
+
+    def judge(self, mode, seq, decs, ribs_before, want_state, before_rerender=None):
+        """The oracle for the last step of seq (decs = what every step returned, in order)."""
         w = self.w
-        self.reset(mode)
-        decs = []
-        model = {name: {} for name in w['order']}
         n = len(seq)
-        collide = False
-        capture = None
-        for i, letter in enumerate(seq):
-            if intervene is not None and intervene[0] == i:
-                (capture if intervene[2] is not None else self.snap).restore(intervene[1])
-            if i == n - 1:
-                collide = self.collides(seq)
-            decs.append(step(w, letter))
-            if intervene is not None and intervene[2] == i:
-                capture = Snapshot({k: self.snap.roots[k] for k in self.hot})
-            if letter[0] != OPEN_SESSION:
-                al = self.alone_for(mode, letter)
-                tab = model[letter[0]]
-                for row in al['rows']:
-                    tab[(row[0], row[1])] = row
-                for key in al['wd']:
-                    tab.pop(key, None)
         last = decs[-1]
         mism = []
         want = self.alone_for(mode, seq[-1])['obs']
@@ -742,14 +740,17 @@ class Harness:
             fields = [OBS_FIELDS[k] for k in range(len(OBS_FIELDS)) if last.obs[k] != want[k]]
             mism.append(('decode', n - 1, fields, last.obs, want))
         ribs = rib_snapshot(w)
-        bad = [name for name in w['order'] if [tuple(r) for r in ribs[name]] != sorted(model[name].values())]
+        expect = self.expected_ribs(mode, ribs_before, seq[-1])
+        bad = [name for name in w['order'] if [tuple(r) for r in ribs[name]] != expect[name]]
         if bad:
-            mism.append(('rib', n - 1, bad, {b: ribs[b] for b in bad}, {b: sorted(model[b].values()) for b in bad}))
-        info = {'collide': collide, 'outcome': core.digest(list(last.obs))}
+            mism.append(('rib', n - 1, bad, {b: ribs[b] for b in bad}, {b: expect[b] for b in bad}))
+        info = {'outcome': core.digest(list(last.obs))}
         if want_state:
-            info['state'] = core.digest([self.snap.canon(self.canon_keys), ribs])
-        if intervene is not None and intervene[0] == n:
-            (capture if intervene[2] is not None else self.snap).restore(intervene[1])
+            pstate = self.snap.canon(self.canon_keys)
+            info['pstate'] = core.digest(pstate)
+            info['state'] = core.digest([pstate, ribs])
+        if before_rerender is not None:
+            before_rerender()
         for i, d in enumerate(decs):
             if d.kind == 'none':
                 continue
@@ -759,6 +760,68 @@ class Harness:
                 fields = [OBS_FIELDS[2 + k] for k in range(3) if r[k] != then[k]]
                 mism.append(('mutated', i, fields, (d.obs[0], d.kind) + r + (d.obs[5],), d.obs))
         return mism, info
+
+    def evaluate(self, mode: str, seq, intervene=None, want_state: bool = False):
+        """Run seq from a reset state and judge its last step.  Returns (mismatches, info).
+        intervene = (k, keys, frm): just before step k (k == len(seq): before the final re-rendering) put the roots `keys`
+        back to their baseline (frm None) or to what they were right after step frm."""
+        w = self.w
+        self.reset(mode)
+        decs = []
+        n = len(seq)
+        collide = False
+        capture = [None]
+        ribs_before = None
+
+        def put_back():
+            (capture[0] if intervene[2] is not None else self.snap).restore(intervene[1])
+
+        for i, letter in enumerate(seq):
+            if intervene is not None and intervene[0] == i:
+                put_back()
+            if i == n - 1:
+                collide = self.collides(seq)
+                ribs_before = rib_snapshot(w)
+            decs.append(step(w, letter))
+            if intervene is not None and intervene[2] == i:
+                capture[0] = Snapshot({k: self.snap.roots[k] for k in self.hot}, digests=False)
+        hook = put_back if (intervene is not None and intervene[0] == n) else None
+        mism, info = self.judge(mode, seq, decs, ribs_before, want_state, hook)
+        info['collide'] = collide
+        return mism, info
+
+    def run_prefix(self, mode: str, prefix, visit, audit: bool = False) -> None:
+        """Every one-letter extension of prefix, sharing the execution of the prefix: the process-wide hot roots and the
+        Adj-RIB-In tables are checkpointed after the prefix and put back before each extension.  A mismatch seen this way is never
+        reported as such: the sequence is run again from a reset process (evaluate) and that verdict is the one visited."""
+        w = self.w
+        prefix = [tuple(x) for x in prefix]
+        self.reset(mode)
+        decs = [step(w, letter) for letter in prefix]
+        roots = {k: self.snap.roots[k] for k in self.hot}
+        roots.update(self.rib_roots())
+        cp = Snapshot(roots, digests=False)
+        keys = list(roots)
+        ribs_before = rib_snapshot(w)
+        for letter in LETTERS:
+            cp.restore(keys)
+            seq = prefix + [letter]
+            collide = self.collides(seq)
+            d = step(w, letter)
+            mism, info = self.judge(mode, seq, decs + [d], ribs_before, True)
+            info['collide'] = collide
+            if mism or audit:
+                mism2, info2 = self.evaluate(mode, seq, want_state=True)
+                if audit and ([m[:2] for m in mism], info) != ([m[:2] for m in mism2], info2):
+                    raise core.HarnessError(f'checkpointed execution of {seq} differs from execution after a reset: '
+                                            f'{[m[:3] for m in mism]} {info} vs {[m[:3] for m in mism2]} {info2}')
+                mism, info = mism2, info2
+                if audit:
+                    # the decoded objects of the prefix were rendered by evaluate(): run the prefix again
+                    self.reset(mode)
+                    decs = [step(w, x) for x in prefix]
+                    cp = Snapshot(roots, digests=False)
+            visit(seq, mism, info)
 
     # -- classification -----------------------------------------------------------------------------------------
     def _has(self, mode, seq, kind, pos, intervene=None):
@@ -949,6 +1012,7 @@ class Part:
         self.counters = collections.Counter()
         self.outcomes = set()
         self.states = set()
+        self.pstates = set()
         self.viol = {}
 
     def add_violation(self, sig, text, case):
@@ -967,36 +1031,51 @@ class Part:
         for o in self.outcomes:
             ctx.add_to_set('outcomes', o)
         for s in self.states:
+            ctx.add_to_set('states_with_adj_rib_in', s)
+        for s in self.pstates:
             ctx.add_to_set('process_states', s)
         ctx.merge({'viol': {sig: {'what': v[1], 'case': v[2], 'count': v[0]} for sig, v in sorted(self.viol.items())}})
 
 
-def _run_one(H: Harness, part: Part, mode: str, seq, want_state=True):
-    mism, info = H.evaluate(mode, seq, want_state=want_state)
+def _record(H: Harness, part: Part, mode: str, seq, mism, info) -> None:
     part.counters['executions'] += 1
     part.counters['transitions'] += 1
     part.counters['messages_decoded'] += len(seq)
     if info['collide']:
         part.counters['nontrivial'] += 1
     part.outcomes.add(info['outcome'])
-    if want_state:
-        part.states.add(info['state'])
+    part.states.add(info['state'])
+    part.pstates.add(info['pstate'])
     seen_kinds = {m[0] for m in mism}
+    if mism:
+        part.counters['mismatching_sequences'] += 1
     for m in mism:
         if m[0] == 'rib' and 'decode' in seen_kinds:
             continue  # consequence of the decode mismatch at the same position
         sig, text, case = H.classify(mode, seq, m[0], m[1])
         part.add_violation(sig, text, case)
-        part.counters['mismatching_sequences'] += 1
-    return mism, info
+
+
+AUDIT_EVERY = 97  # every 97th prefix is also executed sequence by sequence from a reset process and compared
+
+
+def prefix_of(index: int, length: int):
+    return seq_of(index, length) if length else []
 
 
 def _chunk(args):
+    """All sequences of `length` whose (length-1)-prefix has an index in [lo, hi)."""
     mode, length, lo, hi = args
     H = harness()
     part = Part()
+
+    def visit(seq, mism, info):
+        _record(H, part, mode, seq, mism, info)
+
     for idx in range(lo, hi):
-        _run_one(H, part, mode, seq_of(idx, length))
+        H.run_prefix(mode, prefix_of(idx, length - 1), visit, audit=(idx % AUDIT_EVERY == 0))
+        if idx % AUDIT_EVERY == 0:
+            part.counters['audited_prefixes'] += 1
     stray = H.stray_state()
     if stray:
         raise core.HarnessError(f'process-wide state outside the calibrated hot set changed: {stray[:8]}')
@@ -1004,15 +1083,18 @@ def _chunk(args):
 
 
 def _expand(args):
-    mode, hists = args
+    mode, hists, record = args
     H = harness()
     part = Part()
     out = []
+
+    def visit(seq, mism, info):
+        if record:
+            _record(H, part, mode, seq, mism, info)
+        out.append((tuple(seq), info['pstate'], info['state'], bool(mism)))
+
     for h in hists:
-        for letter in LETTERS:
-            seq = list(h) + [letter]
-            mism, info = _run_one(H, part, mode, seq)
-            out.append((tuple(seq), info['state'], bool(mism)))
+        H.run_prefix(mode, list(h), visit)
     stray = H.stray_state()
     if stray:
         raise core.HarnessError(f'process-wide state outside the calibrated hot set changed: {stray[:8]}')
@@ -1085,15 +1167,15 @@ def run(ctx: core.Ctx) -> None:
         tasks = []
         for mode in CACHING:
             for length in range(1, full[mode] + 1):
-                total = NLET ** length
-                size = max(300, min(4000, total // 64 + 1))
+                total = NLET ** (length - 1)   # prefixes; each is extended by every letter
+                size = max(8, min(400, total // 96 + 1))
                 tasks += [(mode, length, lo, min(total, lo + size)) for lo in range(0, total, size)]
         for part in pool.imap(_chunk, tasks):
             part.merge_into(ctx)
         ctx.coverage_extra['full_enumeration'] = {m: {'max_length': full[m], 'sequences': sum(NLET ** k for k in range(1, full[m] + 1))}
                                                   for m in CACHING}
-        ctx.count('states', ctx.set_size('process_states'))
-        # 3. deeper: BFS over histories with canonical-state dedup (state = hot roots + Adj-RIB-In tables)
+        # 3. deeper: BFS over histories, one representative history per canonical process-wide state (hot roots; the
+        #    Adj-RIB-In tables are judged at every transition but are not part of the dedup key)
         for mode in CACHING:
             seen = set()
             frontier = [()]
@@ -1103,24 +1185,22 @@ def run(ctx: core.Ctx) -> None:
                     break
                 nshards = min(64, len(frontier))
                 shards = [frontier[i::nshards] for i in range(nshards)]
-                results = pool.map(_expand, [(mode, s) for s in shards])
+                results = pool.map(_expand, [(mode, sh, d > full[mode]) for sh in shards])
                 nxt = []
                 for part, out in results:
-                    if d > full[mode]:
-                        part.merge_into(ctx)
-                    for seq, state, bad in out:
-                        if state in seen:
+                    part.merge_into(ctx)
+                    for seq, pstate, _state, _bad in out:
+                        if pstate in seen:
                             continue
-                        seen.add(state)
-                        if not bad:
-                            nxt.append(seq)
+                        seen.add(pstate)
+                        nxt.append(seq)
                 nxt.sort()
                 frontier = nxt
                 per_depth[f'depth{d}'] = len(seen)
-            ctx.coverage_extra.setdefault('bfs_states', {})[mode] = per_depth
-            for s in seen:
-                ctx.add_to_set('process_states', s)
-        ctx.counters['states'] = ctx.set_size('process_states')
+            ctx.coverage_extra.setdefault('bfs_process_states', {})[mode] = per_depth
+            for st in seen:
+                ctx.add_to_set('process_states', st)
+        ctx.counters['states'] = ctx.set_size('states_with_adj_rib_in')
     finally:
         pool.close()
         pool.join()
